@@ -846,8 +846,12 @@ package server
 
 // Telemetry opt-out through the environment (property C19): LIFTBRIDGE_TELEMETRY_ENABLED=false switches telemetry
 // off whatever the configuration file says, and also when there is no configuration file
-//@ func NewConfig serves C19
+// (C15) whether client authorisation is on is what the configuration says under ITS key, tls.client.authz.enabled
+//@ ghost var configViper *viper.Viper
+//@ func NewConfig serves C19, C15
 //@   returns (cfg, err)
+//@   ghost after call New: ghost.configViper := ret0
+//@   ensures [C15:authorisation-switch-read-from-its-own-key] err == nil && configFile != "" && viperIsSet(ghost.configViper, "tls.client.authz.enabled") ==> cfg != nil && cfg.TLSClientAuthz == viperBool(ghost.configViper, "tls.client.authz.enabled")
 //@   ensures [environment-opt-out] err == nil && envSet("LIFTBRIDGE_TELEMETRY_ENABLED") && parsesAsBool(envVal("LIFTBRIDGE_TELEMETRY_ENABLED")) && !boolOf(envVal("LIFTBRIDGE_TELEMETRY_ENABLED")) ==> cfg != nil && !cfg.Telemetry.Enabled
 //@ func NewDefaultConfig serves C19
 //@   ensures result != nil
